@@ -1,5 +1,6 @@
 """Tree-space checks: expected projections per format (from the Tree, by the statement) vs. what independent decoders read
 from the printers' output. Shared by C07, C08, C12 (reader part), C15, C18, C19, C20."""
+import hashlib
 import copy, io, os, time, itertools, json
 from mc import boot, core, cats as K, trees as T, decoders as D, search as S
 
@@ -167,6 +168,7 @@ def check_formats(st, nbest, lang, formats, base, count=True, skip=()):
         except Exception as e:
             bad(fmt, f'rendering raised {e!r}', kind='render_error', detail=f'{type(e).__name__}:{str(e)[:40]}')
             continue
+        st.observe(fmt, hashlib.sha1(text.encode('utf8', 'replace')).hexdigest())
         try:
             if fmt in ('auto', 'auto_extended', 'ptb', 'ja', 'deriv'):
                 recs = D.split_records(text)
@@ -453,6 +455,8 @@ def families(lang, tier, tokens, max_pairs=None):
     cover = list(covering_trees(lang, rule_vocabulary(lang) - reached).values())
     for t in T.long_trees(lang):
         yield 'arbitrary', t, [f'w{i}' for i in range(T.n_leaves(t))]
+    for t in T.inventory_trees(lang, tier == 'thorough'):
+        yield 'arbitrary', t, ['w0', 'w1', 'w2']
     for name, fam in (('licensed', lic), ('licensed', cover), ('arbitrary', arb)):
         for idx, t in enumerate(fam):
             n = T.n_leaves(t)
